@@ -3,8 +3,8 @@
 import json, os, shutil, sys
 pid, k, caught = sys.argv[1:4]
 needs = " ".join(sys.argv[4:])
-src = f"/tmp/seed/out/{pid}"
-dst = f"/verif/seeded/{pid}-{k}"
+src = os.environ.get("SEEDOUT", "/tmp/seed/out") + f"/{pid}"
+dst = f"/verif/seeded/{pid}-{k}" + os.environ.get("SEEDSUFFIX", "")
 os.makedirs(dst, exist_ok=True)
 shutil.copy(f"{src}/patch{k}.diff", f"{dst}/patch.diff")
 shutil.copy(f"{src}/demo{k}_test.go", f"{dst}/demo_test.go.txt")
